@@ -89,10 +89,11 @@ static bool precedes(const enum hh_kind kind, const struct ment *a, const struct
     switch (kind) {
     case HH_DEFAULT:    /* ascending dsortkey only (not a total order) */
         return a->d < b->d;
-    case HH_GUARD:      /* priority high first, then earlier entry time, then key */
+    case HH_GUARD:      /* priority high first, then earlier entry time, then order of arrival
+                         * (payload word 3, which this harness fills with the enqueue sequence number) */
         if (a->i != b->i) return a->i > b->i;
         if (a->d != b->d) return a->d < b->d;
-        return a->key < b->key;
+        return (uintptr_t)a->pl[3] < (uintptr_t)b->pl[3];
     case HH_HOLDERS:    /* priority low first, then higher key */
         if (a->i != b->i) return a->i < b->i;
         return a->key > b->key;
